@@ -51,7 +51,7 @@ def replay_field_op(doc, op):
             idx = next((i for i, (n, _) in enumerate(d[p]) if n == k), None)
             if idx is None: return d, "notfound"
             d[p][idx] = (new, d[p][idx][1])
-            return d, "renamed"
+            return d, "renamed" if d[p][idx][1] else "renamed-empty"
         return d, ""
     if o == "A":
         d.append([]); return d, ""
@@ -65,6 +65,11 @@ def replay_field_op(doc, op):
 
 class EditProp(Prop):
     para_ops = False
+    empty_renames = 0
+    @property
+    def extra_coverage(self):
+        from .c04h import PROP as H
+        return {"renames_of_a_field_without_value": {"deb822-edit": self.empty_renames, "deb822-store": H.empty_renames}}
     extra_props_files = ["props/C04H.v"]       # store-level handle aliasing (docs/cones/C04H.md)
     def store_streams(self, tier, rng):
         from .. import gen_store
@@ -101,6 +106,8 @@ class EditProp(Prop):
                 if pre.startswith(nt): note = nt; pre = pre[len(nt):]
             if "HANDLE-MISMATCH" in st: return "a handle obtained earlier does not see the edit"
             doc, want_note = replay_field_op(doc, op)
+            if want_note == "renamed-empty":
+                want_note = "renamed"; self.empty_renames += 1
             if note != want_note: return f"{op.split(':')[0]}: outcome {note!r}, list model says {want_note!r}"
             got = parse_doc_items(items)
             if got != doc:
@@ -152,25 +159,31 @@ class C04(EditProp):
                   "field's name keeping position and value); (2) frame for every tree: an edit of paragraph n leaves every other child of the "
                   "root untouched, set replaces exactly one entry or appends after terminating the last line (at most one LF added before it); "
                   "(3) every parsed well-formed document and every paragraph built from canonical pairs is a live document (LiveDoc.lwf); "
-                  "(4) for every history with arguments in the domain, from every live document: the result is a live document whose printed "
+                  "(4) for every history with arguments in the domain (set/insert: valid name, canonical non-empty value; rename: valid new name, "
+                  "whatever value the renamed field carries, also none), from every live document: the result is a live document whose printed "
                   "text re-reads without error to the non-empty paragraphs the live object reports; (5) handle aliasing (props/C04H.v): a "
                   "store-level model of the editing API (Deb822Store.v: mutable trees with node identities, splice_children / detach / attach as "
                   "rowan 0.16.1 performs them) refines the pure model for every history issued through paragraph handles obtained at ANY "
                   "earlier time - no panic, the document is the pure model's result with each edit applied where its handle's paragraph "
                   "currently is, every handle keeps denoting its paragraph (a removed paragraph lives on detached: Dead), so (4) holds for "
-                  "such histories; the deb822-store stream runs that model against the code with four handle registers, and deb822-edit "
+                  "such histories (C04_handles_history_every, C05_handles_history_every); the deb822-store stream runs that model against the code with four handle registers, and deb822-edit "
                   "performs every edit through handles obtained before all earlier edits. "
-                  "PARTIAL: rename of a field whose value is empty is outside theorem (4) (Entry::new then holds an empty VALUE token); it is "
-                  "covered by (1), (2) and by the stream's re-read oracle.")
+                  "Rename of a field whose value is empty is inside (4): Entry::new then writes one empty VALUE token, which the reader never "
+                  "produces, so (4) says live_tree (coq/model/LiveTree.v): the tree with its empty VALUE tokens dropped is the tree of the "
+                  "live layout - same text, same content, same re-read; every later edit (also a rename through that entry) keeps it. "
+                  "C04_history_exact keeps the older exact statement (tree = layout tree) for histories whose renamed fields carry a value.")
     level_note = "Model: Entry::new, Paragraph::{set,insert,remove,rename}, ensure_trailing_newline in src/lossless.rs over the rowan tree model (coq/model/Deb822Edit.v)."
     rule = ("deb822-edit: initial document (Deb822::new / FromIterator of pairs / parsed well-formed Grammar document with all layout knobs) x random "
-            "history (1-12 ops) of set/insert/remove/rename on paragraphs 0-3 with values in the property's domain; deb822-edit-any: arbitrary and "
+            "history (1-12 ops) of set/insert/remove/rename on paragraphs 0-3 with values in the property's domain; renames aim at fields without a "
+            "value (40% when the document has one; 15% of the parsed documents get such fields on purpose) and at the result of an earlier rename, "
+            "plus a fixed corpus of such histories (gen_edit.corpus_cases); the evidence counts them (renames_of_a_field_without_value); deb822-edit-any: arbitrary and "
             "malformed initial text and values (correspondence + handle check only); non-trivial = at least one op on a document with a field")
     trusted = ["Coq 8.16.1 kernel", "rowan 0.16.1 mutable-tree semantics as modelled in coq/model/Deb822Edit.v (splice/detach/iteration, aliasing of handles), validated by the stream",
                "hand transcription of the editing functions", "extraction, OCaml runner, Rust harness, Python driver"]
     assumptions = ["values: non-empty lines without LF/CR, not starting with space/tab, continuation lines not starting with '#'; names valid"]
     def streams(self, tier, rng):
         n = {"quick": 6000, "search": 20000, "thorough": 200000}[tier]
+        yield "deb822-edit", gen_edit.corpus_cases()
         yield "deb822-edit", gen_edit.edit_cases(n, rng, "e", para_ops=False)
         yield "deb822-edit-any", gen_edit.edit_cases(n // 3, rng, "a", para_ops=True, wf=False, canon=False)
         yield from self.store_streams(tier, rng)
